@@ -8,6 +8,8 @@ mod util;
 mod li;
 mod ws;
 mod hist;
+mod srv;
+mod sched;
 
 fn main() {
     std::panic::set_hook(Box::new(|_| {}));
@@ -65,6 +67,8 @@ fn dispatch(cmd: &str, rest: &str) -> String {
         "li" => li::run(rest),
         "ws" => ws::run(rest),
         "hist" => hist::run(rest),
+        "srv" => srv::run(rest),
+        "sched" => sched::run(rest),
         _ => format!("bad-cmd {}", cmd),
     }
 }
